@@ -63,20 +63,20 @@ fn run_stream<H: BuildHasher + Default + Clone>(a: &Args, sink: &mut Sink) -> se
     let dpq = [Kind::Dpq];
     let both = [Kind::Pq, Kind::Dpq];
     let mut extra = serde_json::json!({});
-    let (n, l) = if thorough { (6000, 220) } else { (500, 70) };
+    let (n, l) = if thorough { (20000, 220) } else { (2000, 80) };
     match a.stream.as_str() {
         "core_pq" => random_stream::<H>(sink, &mut rng, &pq, &core_weights(), n, l),
         "core_dpq" => random_stream::<H>(sink, &mut rng, &dpq, &core_weights(), n, l),
         "core_both" => random_stream::<H>(sink, &mut rng, &both, &core_weights(), n, l),
         "bfs_pq" | "bfs_dpq" | "bfs_both" => {
             let kinds: &[Kind] = match a.stream.as_str() { "bfs_pq" => &pq, "bfs_dpq" => &dpq, _ => &both };
-            let (u, v, ms) = if thorough { (4, 3, 6000) } else { (3, 2, 1500) };
+            let (u, v, ms) = if thorough { (4, 3, 30000) } else { (4, 2, 5000) };
             let (states, exhausted) = bfs_stream::<H>(sink, kinds, u, v, ms, a.stream == "bfs_both");
             extra = serde_json::json!({"bfs_states": states, "exhaustive": exhausted, "universe": u, "priorities": v});
         }
         "pattern_pq" | "pattern_dpq" => {
             let kinds: &[Kind] = if a.stream == "pattern_pq" { &pq } else { &dpq };
-            let (len, v, stride) = if thorough { (8, 3, 1) } else { (7, 3, 9) };
+            let (len, v, stride) = if thorough { (8, 3, 1) } else { (7, 3, 3) };
             pattern_stream::<H>(sink, kinds, len, v, stride);
             extra = serde_json::json!({"pattern_len": len, "values": v, "stride": stride, "exhaustive": stride == 1});
         }
@@ -84,7 +84,7 @@ fn run_stream<H: BuildHasher + Default + Clone>(a: &Args, sink: &mut Sink) -> se
         "iters_plain" => { let l = if thorough { 5 } else { 3 }; iter_stream::<H>(sink, &both, 4, l, &["iter", "into_iter", "drain"]); extra = serde_json::json!({"exhaustive": true, "max_calls": l, "max_size": 4}); }
         "iters_sorted" => { let l = if thorough { 5 } else { 4 }; iter_stream::<H>(sink, &both, 5, l, &["sorted_iter"]); extra = serde_json::json!({"exhaustive": true, "max_calls": l, "max_size": 5}); }
         "iters_drain" => { let l = if thorough { 5 } else { 4 }; iter_stream::<H>(sink, &both, 4, l, &["drain"]); extra = serde_json::json!({"exhaustive": true, "max_calls": l, "max_size": 4}); }
-        "bulk" => bulk_stream::<H>(sink, &mut rng, &both, if thorough { 8000 } else { 700 }),
+        "bulk" => bulk_stream::<H>(sink, &mut rng, &both, if thorough { 20000 } else { 2500 }),
         "large" => {
             let sizes: Vec<u64> = if thorough { vec![1, 2, 3, 7, 8, 100, 1023, 1024, 2048, 4096] } else { vec![1, 2, 3, 8, 100, 511, 1024] };
             large_stream::<H>(sink, &mut rng, &both, &sizes);
